@@ -186,8 +186,7 @@ class CallsMixin:
                 s1.assume(nn >= 0)
                 if strip_opt(v.ty[1])[0] == "ref":
                     # view link for duplicate-free reference lists: empty <=> no member
-                    x = z3.Const(fresh_name("x_len"), REF)
-                    s1.assume((nn == 0) == z3.ForAll([x], z3.Not(s1.mem(v.term, x))))
+                    s1.assume_link(v.term)
                 return [(s1, V(("int",), nn))]
             if v.ty[0] == "ref":
                 c, fn = self.src.method(v.ty[1], "__len__")
@@ -282,7 +281,12 @@ class CallsMixin:
             newmem = z3.FreshConst(z3.ArraySort(REF, z3.BoolSort()), "concat_mem")
             st.assume(z3.ForAll([x], z3.Select(newmem, x) == z3.Or(st.mem(start.term, x), z3.Exists([i], z3.And(0 <= i, i < n, st.mem(z3.Select(outer, i), x))))))
             st.set_mem(res.term, newmem)
-            st.assume((nr == 0) == z3.ForAll([x], z3.Not(z3.Select(newmem, x))))
+            j = z3.Int(fresh_name("j_cc"))
+            nd = z3.FreshConst(z3.BoolSort(), "concat_nodup")
+            st.assume(z3.Implies(z3.And(st.nodup(start.term), z3.ForAll([i], z3.Implies(z3.And(0 <= i, i < n), st.nodup(z3.Select(outer, i)))),
+                                        z3.ForAll([i, j, x], z3.Implies(z3.And(0 <= i, i < j, j < n), z3.Not(z3.And(st.mem(z3.Select(outer, i), x), st.mem(z3.Select(outer, j), x))))),
+                                        z3.ForAll([i, x], z3.Implies(z3.And(0 <= i, i < n), z3.Not(z3.And(st.mem(start.term, x), st.mem(z3.Select(outer, i), x)))))), nd))
+            st.set_nodup(res.term, nd)
             res.py = ("concat", lists)
         return res
 
@@ -403,7 +407,39 @@ class CallsMixin:
         return out
 
     def comp_filter(self, e, g, st, d):
-        raise Unsupported(f"filter comprehension without a registered idiom: {ast.unparse(e)[:80]}")
+        """[key|value for key, value in D.items() if c(key)]: a fresh list in bijection with the selected keys (Skolem functions keyof/idxof)"""
+        tgt = g.target
+        if not (isinstance(tgt, ast.Tuple) and len(tgt.elts) == 2 and all(isinstance(t, ast.Name) for t in tgt.elts) and isinstance(e.elt, ast.Name)
+                and e.elt.id in (tgt.elts[0].id, tgt.elts[1].id) and len(g.ifs) == 1):
+            raise Unsupported(f"filter comprehension without a registered idiom: {ast.unparse(e)[:80]}")
+        out = []
+        for s1, it in self.ev(g.iter, st, d):
+            if it.ty[0] != "dictitems":
+                raise Unsupported("filter comprehension over a non-dict")
+            s1 = s1.copy(); dct = it.py
+            kty, vty = dct.ty[1], dct.ty[2]
+            k = z3.Const(fresh_name("k_cf"), sort_of(kty)); i = z3.Int(fresh_name("i_cf"))
+            sb = s1.peek(); sb.env = dict(s1.env)
+            sb.env[tgt.elts[0].id] = V(kty, k)
+            sb.env[tgt.elts[1].id] = V(vty, z3.Select(s1.dict_val(dct), k))
+            res = self.ev(g.ifs[0], sb, d)
+            if len(res) != 1:
+                raise Unsupported("filter condition branches")
+            cond_k = truth(res[0][1], res[0][0])
+            want_key = e.elt.id == tgt.elts[0].id
+            rty = kty if want_key else vty
+            r = s1.new_list(rty, "filtercomp")
+            n = z3.Const(fresh_name("n_cf"), z3.IntSort()); s1.assume(n >= 0); s1.set_len(r.term, n)
+            keyof = z3.Function(fresh_name("keyof"), z3.IntSort(), sort_of(kty)); idxof = z3.Function(fresh_name("idxof"), sort_of(kty), z3.IntSort())
+            new = z3.FreshConst(z3.ArraySort(z3.IntSort(), sort_of(rty)), "cf_el")
+            sel = lambda kk: z3.And(z3.Select(s1.dict_dom(dct), kk), z3.substitute(cond_k, (k, kk)))
+            elem_i = keyof(i) if want_key else z3.Select(s1.dict_val(dct), keyof(i))
+            s1.assume(z3.ForAll([i], z3.Implies(z3.And(0 <= i, i < n), z3.And(sel(keyof(i)), z3.Select(new, i) == elem_i, idxof(keyof(i)) == i))))
+            s1.assume(z3.ForAll([k], z3.Implies(sel(k), z3.And(0 <= idxof(k), idxof(k) < n, keyof(idxof(k)) == k))))
+            s1.set_elems(r.term, rty, new)
+            r.py = ("dictfilter", dct, keyof, idxof, cond_k, k, want_key)
+            out.append((s1, r))
+        return out
 
     def comprehension_map(self, lam, seq, st, d):
         comp = ast.ListComp(elt=lam.body, generators=[ast.comprehension(target=ast.Name(id=lam.args.args[0].arg, ctx=ast.Store()), iter=seq, ifs=[], is_async=0)])
@@ -510,30 +546,37 @@ class CallsMixin:
                 k, a = s1.el_arr(ety)
                 s1.heap[k] = z3.Store(a, qt, z3.FreshConst(z3.ArraySort(z3.IntSort(), sort_of(ety)), "heap_el"))
             if name == "heappop":
+                s1.assume_link(qt)
                 s1.oblige("heappop:heap-shape", s1.heapok(qt), "pre@lib")
                 s1.oblige("heappop:non-empty", s1.length(qt) > 0, "pre@lib")
+                s1.oblige("heappop:duplicate-free list (mem view)", s1.nodup(qt), "pre@lib")
                 top = z3.Select(s1.elems(qt, ety), 0)
                 s1.assume(s1.mem(qt, top))
                 s1.set_mem(qt, z3.Store(s1.memset(qt), top, z3.BoolVal(False)))
                 s1.set_len(qt, s1.length(qt) - 1)
                 havoc_elems()
                 v = V(ety, top); s1.assume_alloc(v)
-                if ("lib", "heappop-min") in self.specs:
-                    self.specs[("lib", "heappop-min")](self, s1, q, v)
+                if ("lib", "heap-order") in self.specs:
+                    self.specs[("lib", "heap-order")](self, s1, q, v, "heappop")
                 out.append((s1, v))
             elif name == "heapify":
                 havoc_elems(); s1.set_heapok(qt, True)
                 n = s1.length(qt)
                 # view link kept: q[0] is a member when non-empty
                 s1.assume(z3.Implies(n > 0, s1.mem(qt, z3.Select(s1.elems(qt, ety), 0))))
+                if ("lib", "heap-order") in self.specs:
+                    self.specs[("lib", "heap-order")](self, s1, q, None, "heapify")
                 out.append((s1, NONE))
             elif name == "heappush":
                 x = pos[1]
                 s1.oblige("heappush:heap-shape", s1.heapok(qt), "pre@lib")
+                s1.set_nodup(qt, z3.And(s1.nodup(qt), z3.Not(s1.mem(qt, x.term))))
                 s1.set_mem(qt, z3.Store(s1.memset(qt), x.term, z3.BoolVal(True)))
                 s1.set_len(qt, s1.length(qt) + 1)
                 havoc_elems()
                 s1.assume(s1.mem(qt, z3.Select(s1.elems(qt, ety), 0)))
+                if ("lib", "heap-order") in self.specs:
+                    self.specs[("lib", "heap-order")](self, s1, q, None, "heappush")
                 out.append((s1, NONE))
             else:
                 raise Unsupported("heapq." + name)
@@ -637,6 +680,7 @@ class CallsMixin:
                 return [(st, NONE)]
             st.list_set(recv, V(("int",), n), v, check=False)
             if isref:
+                st.set_nodup(r, z3.And(st.nodup(r), z3.Not(st.mem(r, v.term))))
                 st.set_mem(r, z3.Store(st.memset(r), v.term, z3.BoolVal(True)))
                 st.set_heapok(r, z3.FreshConst(z3.BoolSort(), "heapok_app"))
             if ("hook", "append", self.current) in self.specs:
@@ -664,6 +708,7 @@ class CallsMixin:
             st.contains_note = True
             self.contains(st, recv, x, d)      # records the eq-identity assumption where relevant
             st.oblige("list.remove:element-present", st.mem(r, x.term), "pre@lib")
+            st.oblige("list.remove:duplicate-free list (mem view)", st.nodup(r), "pre@lib")
             st.set_mem(r, z3.Store(st.memset(r), x.term, z3.BoolVal(False)))
             st.set_len(r, st.length(r) - 1)
             k, a = st.el_arr(ety); st.heap[k] = z3.Store(a, r, z3.FreshConst(z3.ArraySort(z3.IntSort(), sort_of(ety)), "rm_el"))
